@@ -112,6 +112,50 @@ pub fn configs(n_links: usize, tag: &str) -> Vec<Config> {
             ambiguous: n_links > 2,
         });
     }
+    // (viii) threshold 2, the links agree on every digest they share but one records an
+    // additional algorithm (a one-directional comparison would depend on the reference link)
+    for pos in 0..n_links {
+        let dir = util::fresh_dir(&format!("c13-{tag}"));
+        let lay = world::layout(vec![world::step("s", 2, f)], vec![], f, world::far_future());
+        for (i, k) in f.iter().enumerate() {
+            let mut l = world::link("s", world::arts(&[("m", 1)]), world::arts(&[("a", 1)]));
+            if i == pos {
+                l.products.insert(world::vpath("a"), world::desc2(1));
+            }
+            write_link(&dir, "s", k, &world::sign_link(l, &[k]));
+        }
+        out.push(Config {
+            name: format!("viii:thr2:{n_links}links-extra-algorithm-at-{pos}"),
+            layout: world::sign_layout(lay, &[owner]),
+            owners: world::owner_map(&[owner]),
+            dir,
+            ambiguous: false,
+        });
+    }
+    // (ix) a delegated step with threshold 2: both functionaries file the same sub-layout,
+    // the second one's own sub-directory holds different evidence
+    {
+        let dir = util::fresh_dir(&format!("c13-{tag}"));
+        let inner_f = keys::get("ed5");
+        let two = &f[..2];
+        let lay = world::layout(vec![world::step("s", 2, two)], vec![], two, world::far_future());
+        let inner = world::layout(vec![world::step("in", 1, &[inner_f])], vec![], &[inner_f], world::far_future());
+        let co_signed = world::sign_layout(inner, two);
+        for (i, k) in two.iter().enumerate() {
+            write_link(&dir, "s", k, &co_signed);
+            let sub = dir.join(format!("s.{}", k.prefix()));
+            std::fs::create_dir_all(&sub).unwrap();
+            let l = world::link("in", world::arts(&[]), world::arts(&[("a", 20 + i as u8)]));
+            write_link(&sub, "in", inner_f, &world::sign_link(l, &[inner_f]));
+        }
+        out.push(Config {
+            name: format!("ix:delegated-threshold-2-same-sublayout-different-evidence:{n_links}"),
+            layout: world::sign_layout(lay, &[owner]),
+            owners: world::owner_map(&[owner]),
+            dir,
+            ambiguous: false,
+        });
+    }
     // (vii) two ambiguous steps and a third step that MATCHes both
     {
         let dir = util::fresh_dir(&format!("c13-{tag}"));
